@@ -155,9 +155,26 @@ def shard_events(lines, nshards):
 def validate_trace(events_path, workdir, nshards=None, timeout=3000, module="Trace.tla", cfg="Trace.cfg", xmx="3g"):
     """Runs the trace specification over the events; returns dict(events, diags, shards, wall)."""
     events_path, workdir = os.path.abspath(events_path), os.path.abspath(workdir)
-    lines = [l for l in open(events_path).read().split("\n") if l.strip()]
+    raw = open(events_path).read()
+    lines = [l for l in raw.split("\n") if l.strip()]
     if not lines:
         raise ToolError("driver produced no events")
+    # TLC's verdict is a pure function of (trace, specification): an identical trace already judged by the identical
+    # specification is not judged again (the driver itself is re-run against /repo's tree on every check)
+    h = hashlib.sha256(raw.encode())
+    for fn in sorted(os.listdir(SPEC)):
+        if fn.endswith(".tla") or fn == cfg:
+            h.update(fn.encode())
+            h.update(open(os.path.join(SPEC, fn), "rb").read())
+    cpath = os.path.join(WORK, "cache", h.hexdigest() + ".json")
+    if os.path.exists(cpath) and not os.environ.get("VERIF_NO_CACHE"):
+        try:
+            r = json.load(open(cpath))
+            r["cached"] = True
+            log(f"[tv] {len(lines)} events: verdict of the identical trace reused ({len(r['diags'])} diagnostics)")
+            return r
+        except Exception:
+            pass
     nshards = nshards or max(1, NCPU - 2)
     shards = shard_events(lines, nshards)
     os.makedirs(workdir, exist_ok=True)
@@ -190,8 +207,14 @@ def validate_trace(events_path, workdir, nshards=None, timeout=3000, module="Tra
     diags = [d for r in results for d in r["diags"]]
     notes = [d for r in results for d in r["notes"]]
     log(f"[tv] {len(lines)} events on {len(paths)} shards: {len(diags)} diagnostics, {time.time()-t0:.1f}s")
-    return {"events": len(lines), "diags": diags, "notes": notes, "shards": len(paths), "wall": time.time() - t0,
-            "states": sum(r["states"] for r in results), "distinct": sum(r["distinct"] for r in results)}
+    res = {"events": len(lines), "diags": diags, "notes": notes, "shards": len(paths), "wall": time.time() - t0,
+           "states": sum(r["states"] for r in results), "distinct": sum(r["distinct"] for r in results)}
+    os.makedirs(os.path.dirname(cpath), exist_ok=True)
+    tmp = cpath + f".{os.getpid()}.tmp"
+    json.dump(res, open(tmp, "w"))
+    os.replace(tmp, cpath)
+    shutil.rmtree(workdir, ignore_errors=True)
+    return res
 
 
 # ---------------------------------------------------------------- model checking
